@@ -77,3 +77,23 @@ package multi
 //@   assert call WriteOrDone: owed && arg1 != nil && arg1 > hw && arg1.bs == bs && arg1.err == nil && arg2 == m.readResCh
 //@   after call WriteOrDone: owed = false
 //@   loop 1 invariant !owed
+
+// ---------------------------------------------------------------- C19: Close closes every member
+// Whatever the members' Close calls return, the loop over the member map is never left early:
+// every member visited is closed (through CloseWithStatus with the caller's status when it offers
+// it) before the next one is taken, and the function returns only after the range over the map
+// was exhausted; the transport's own context is cancelled first.
+//@ func (*Transport).CloseWithStatus
+//@   props C19
+//@   ghostvar owed bool = false
+//@   ghostvar cancelled bool = false
+//@   ghostvar exhausted bool = false
+//@   after call dynamic field cancel: cancelled = true
+//@   after next: owed = true
+//@   after call Closer).CloseWithStatus: owed = false
+//@   after call Transport).Close: owed = false
+//@   after rangedone: exhausted = true
+//@   assert call Closer).CloseWithStatus: cancelled && owed && arg0 == status
+//@   assert call Transport).Close: cancelled && owed
+//@   ensures cancelled && exhausted && !owed
+//@   loop 1 invariant cancelled && !owed && !exhausted
